@@ -173,11 +173,11 @@ Qed.
 Lemma rejected_no_change H n s h m :
   accepted (fst (step H n s h m)) = false -> snd (step H n s h m) = s.
 Proof.
-  destruct m as [f v hash hex_ok|f v salt rates tuples parses wl|op d|sd nvp|v st| |]; simpl.
+  destruct m as [f v hash hex_ok|f v salt rates tuples parses wl|op d|sd nvp vd|v st| |]; simpl.
   - destruct (is_nil _); simpl; congruence.
   - destruct (is_nil _); simpl; congruence.
   - destruct (status s op); simpl; congruence.
-  - destruct sd; simpl; congruence.
+  - destruct sd, vd; simpl; congruence.
   - discriminate.
   - discriminate.
   - reflexivity.
@@ -237,14 +237,14 @@ Lemma step_prevotes H n s h m x p :
   exists f hash hex_ok, m = Prevote f x hash hex_ok /\
                         p = {| p_hash := hash; p_submit := to_u64 h; p_origin := n |}.
 Proof.
-  destruct m as [f v hash hex_ok|f v salt rates tuples parses wl|op d|sd nvp|v st| |]; unfold step; simpl.
+  destruct m as [f v hash hex_ok|f v salt rates tuples parses wl|op d|sd nvp vd|v st| |]; unfold step; simpl.
   - destruct (is_nil _); simpl; auto. unfold upd.
     destruct (Nat.eqb_spec x v) as [->|N]; auto.
     intro E. inversion E. right. eauto.
   - destruct (is_nil _); simpl; auto. unfold upd.
     destruct (Nat.eqb_spec x v) as [->|N]; auto. discriminate.
   - destruct (status s op); simpl; auto.
-  - destruct sd; simpl; auto. destruct (nvp =? 0)%Z; simpl; auto.
+  - destruct sd, vd; simpl; auto. destruct (nvp =? 0)%Z; simpl; auto.
   - auto.
   - destruct (is_period_last (vp s) h); simpl; auto.
     destruct (prevotes s x) as [q|]; [|discriminate].
@@ -281,7 +281,7 @@ Lemma consume_at_spec H n s h m j o :
     m = Vote f v salt rates tuples parses wl /\
     accepted (fst (step H n s h m)) = true /\ prevotes s v = Some p /\ p_origin p = o.
 Proof.
-  destruct m as [f v hash hex_ok|f v salt rates tuples parses wl|op d|sd nvp|v st| |];
+  destruct m as [f v hash hex_ok|f v salt rates tuples parses wl|op d|sd nvp vd|v st| |];
     try (simpl; tauto).
   unfold consume_at.
   destruct (accepted (fst (step H n s h (Vote f v salt rates tuples parses wl)))) eqn:A; [|simpl; tauto].
@@ -468,12 +468,12 @@ Lemma feeders_kept_unless_delegate H n s h m v :
   (forall d, m <> Delegate v d) -> feeders (snd (step H n s h m)) v = feeders s v.
 Proof.
   intro ND.
-  destruct m as [f x hash hex_ok|f x salt rates tuples parses wl|op d|sd nvp|x st| |]; unfold step; simpl.
+  destruct m as [f x hash hex_ok|f x salt rates tuples parses wl|op d|sd nvp vd|x st| |]; unfold step; simpl.
   - destruct (is_nil _); reflexivity.
   - destruct (is_nil _); reflexivity.
   - destruct (status s op); simpl; auto; unfold upd;
       (destruct (Nat.eqb_spec v op) as [->|N]; [exfalso; apply (ND d); reflexivity|reflexivity]).
-  - destruct sd; simpl; auto. destruct (nvp =? 0)%Z; reflexivity.
+  - destruct sd, vd; simpl; auto. destruct (nvp =? 0)%Z; reflexivity.
   - reflexivity.
   - destruct (is_period_last (vp s) h); reflexivity.
   - reflexivity.
@@ -507,21 +507,21 @@ Qed.
 
 Definition ev_ok (e : event) : Prop :=
   (0 <= fst e < two63)%Z /\
-  match snd e with EditParams _ nvp => (0 <= nvp)%Z | _ => True end.
+  match snd e with EditParams _ nvp _ => (0 <= nvp)%Z | _ => True end.
 
 Definition ranges (s : state) : Prop :=
   (0 < vp s)%Z /\ forall v p, prevotes s v = Some p -> (0 <= p_submit p < two63)%Z.
 
 Lemma vp_step H n s h m :
   vp (snd (step H n s h m)) = vp s \/
-  exists sd nvp, m = EditParams sd nvp /\ (nvp <> 0)%Z /\ vp (snd (step H n s h m)) = nvp.
+  exists sd nvp vd, m = EditParams sd nvp vd /\ (nvp <> 0)%Z /\ vp (snd (step H n s h m)) = nvp.
 Proof.
-  destruct m as [f x hash hex_ok|f x salt rates tuples parses wl|op d|sd nvp|x st| |]; unfold step; simpl.
+  destruct m as [f x hash hex_ok|f x salt rates tuples parses wl|op d|sd nvp vd|x st| |]; unfold step; simpl.
   - destruct (is_nil _); auto.
   - destruct (is_nil _); auto.
   - destruct (status s op); auto.
-  - destruct sd; simpl; auto. destruct (Z.eqb_spec nvp 0); simpl; auto.
-    right. exists true, nvp. auto.
+  - destruct sd, vd; simpl; auto. destruct (Z.eqb_spec nvp 0); simpl; auto.
+    right. exists true, nvp, true. auto.
   - auto.
   - destruct (is_period_last (vp s) h); auto.
   - auto.
@@ -530,7 +530,7 @@ Qed.
 Lemma ranges_step H n s h m : ev_ok (h, m) -> ranges s -> ranges (snd (step H n s h m)).
 Proof.
   intros [Rh Rm] [V Sb]. simpl in Rh, Rm. split.
-  - destruct (vp_step H n s h m) as [E|(sd & nvp & -> & NZ & E)]; rewrite E; auto. lia.
+  - destruct (vp_step H n s h m) as [E|(sd & nvp & vd & -> & NZ & E)]; rewrite E; auto. lia.
   - intros v p E. apply step_prevotes in E as [E|(f & hash & hex & _ & ->)]; eauto.
     simpl. rewrite to_u64_small; auto.
 Qed.
@@ -585,7 +585,7 @@ Lemma step_satisfies_P k H n s h m :
   step_P k H (view_of s) (h, m, accepted (fst (step H n s h m)), view_of (snd (step H n s h m))).
 Proof.
   unfold step_P.
-  destruct m as [f v hash hex_ok|f v salt rates tuples parses wl|op d|sd nvp|v st| |].
+  destruct m as [f v hash hex_ok|f v salt rates tuples parses wl|op d|sd nvp vd|v st| |].
   - (* Prevote *)
     destruct (accepted (fst (step H n s h (Prevote f v hash hex_ok)))) eqn:A.
     + pose proof (prevote_effect H n s h f v hash hex_ok A _ eq_refl) as (E1 & E2 & E3 & E4 & _ & _).
@@ -621,7 +621,7 @@ Proof.
     + rewrite (rejected_no_change _ _ _ _ _ A).
       split; [discriminate|]. split; [auto|]. split; [intros x _ _; auto|intros x _; auto].
   - (* EditParams *)
-    unfold step. destruct sd; simpl; [|apply kept_refl].
+    unfold step. destruct sd, vd; simpl; try apply kept_refl.
     destruct (nvp =? 0)%Z; simpl; [apply kept_refl|]. split; intros x _; auto.
   - (* SetStatus *) unfold step. simpl. split; intros x _; auto.
   - (* EndBlock *)
@@ -660,7 +660,7 @@ Proof.
   assert (AR : forall f v, auth_reasons a f v = auth_reasons b f v).
   { intros f v. unfold auth_reasons, feeder_ok, bonded. rewrite Vf, Vs. reflexivity. }
   assert (SV : same_view a b) by (repeat split; auto).
-  destruct m as [f v hash hex_ok|f v salt rates tuples parses wl|op d|sd nvp|v st| |]; unfold step.
+  destruct m as [f v hash hex_ok|f v salt rates tuples parses wl|op d|sd nvp vd|v st| |]; unfold step.
   - rewrite AR. destruct (is_nil _); simpl; split; auto.
     repeat split; simpl; auto. intro x. unfold upd.
     destruct (x =? v); [reflexivity|apply Vp].
@@ -674,7 +674,7 @@ Proof.
     + destruct (x =? v); [reflexivity|apply Vv].
   - rewrite Vs. destruct (status b op); simpl; split; auto;
       repeat split; simpl; auto; intro x; unfold upd; (destruct (x =? op); [reflexivity|apply Vf]).
-  - destruct sd; simpl; split; auto. destruct (nvp =? 0)%Z; auto. repeat split; auto.
+  - destruct sd, vd; simpl; split; auto. destruct (nvp =? 0)%Z; auto. repeat split; auto.
   - simpl. split; auto. repeat split; simpl; auto. intro x. unfold upd.
     destruct (x =? v); [reflexivity|apply Vs].
   - simpl. split; auto. rewrite Vvp. destruct (is_period_last (vp b) h); auto.
